@@ -34,7 +34,7 @@ ASSUMPTIONS = [
     "well-formed == the real ANTLR query parser and lexer report no error (recorded by the injected listeners); other texts are counted but not judged",
     "the value type of an existence filter (key:*) is not judged (there is no value to infer it from)",
 ]
-REQUIRED_COUNTERS = ["enter._add_priorities", "enter._get_date_range", "enter._get_property_filter", "enter.exitSubfilter", "enter._process_query", "listener.query_progs"]
+REQUIRED_COUNTERS = ["enter._add_priorities", "enter._get_date_range", "enter._get_property_filter", "enter.exitSubfilter", "enter._process_query", "listener.query_progs", "days.executions"]
 MIN_JUDGED = {"quick": 4000, "thorough": 80000}
 MAX_INVALID_FRAC = 0.10
 
@@ -56,7 +56,57 @@ def plan(tier: str, seed: int) -> list[dict]:
     units = [{"kind": "random", "start": s, "n": per, "seed": seed, "today": (s // per) % len(TODAYS)} for s in range(0, n, per)]
     for t in range(len(TODAYS) if tier == "thorough" else 2):
         units.append({"kind": "exhaustive", "today": t})
+    for t in range(len(TODAYS) if tier == "thorough" else 2):
+        units.append({"kind": "days", "today": t})
     return units
+
+
+def run_days(acc: Acc, t: int) -> None:
+    """'The stated offset from today': the SAME query text executed by the real query service on consecutive days
+    within ONE process (a long-lived session refreshing a query page) must follow the calendar."""
+    import shutil
+
+    from zmon import db
+    from zmon.gen import page as pg
+    from zorg.service import swog
+
+    base_day = TODAYS[t]
+    root = harness.notes_root("c04days", t)
+    days = [base_day + dt.timedelta(days=k) for k in range(-8, 9)]
+    lines = ["# Calendar", ""]
+    zid_of = {}
+    for i, d in enumerate(days):
+        z = d.strftime("%y%m%d") + "#C" + pg.ZID_ALPHABET[i]
+        zid_of[d] = z
+        lines.append(f"- {z} note of {d.isoformat()}")
+    (root / "cal.zo").write_text("\n".join(lines) + "\n")
+    with frozen(base_day):
+        if db.cli(root, "db", "create").rc != 0:
+            acc.inconclusive.append("days: db create failed")
+            return
+    queries = [("^-1d", -1, -1), ("^0d", 0, 0), ("^-2d:0d", -2, 0), ("$-3d:-1d", -3, -1), ("^-1d:1d", -1, 1), ("^1d", 1, 1)]
+    for step in (0, 1, 2, 5, 3):  # (not monotonic: 'today' may also be set back, e.g. by a test clock)
+        today = base_day + dt.timedelta(days=step)
+        with frozen(today):
+            for text, lo, hi in queries:
+                q = f"S note W {text} G none"
+                acc.evaluations += 1
+                acc.judged += 1
+                acc.count("days.executions")
+                db.fresh_process_state()
+                try:
+                    out = swog.execute(root, db.db_url(root), q)
+                except Exception as e:
+                    acc.violation(f"{q!r} on {today} raised {type(e).__name__}: {e}", {"days": True, "today": t, "text": q}, cls="query execution raised")
+                    continue
+                finally:
+                    db.fresh_process_state()
+                got = sorted(w for l in out.split("\n") for w in l.split()[1:2] if "#" in w)
+                want = sorted(zid_of[d] for d in days if today + dt.timedelta(days=lo) <= d <= today + dt.timedelta(days=hi))
+                if got != want:
+                    acc.violation(f"{q!r} executed on {today} (same process, earlier runs on other days) returns {got}, the notes created in [today{lo:+d}d, today{hi:+d}d] are {want}", {"days": True, "today": t, "text": q, "day": today.isoformat()}, cls="relative date not resolved against the day of execution")
+                acc.sig(("days", text, step))
+    shutil.rmtree(harness.scratch() / "c04days", ignore_errors=True)
 
 
 def norm(q):
@@ -217,6 +267,10 @@ def exhaustive_cases(today: dt.date):
 def run_unit(unit: dict) -> dict:
     acc = Acc()
     today = TODAYS[unit["today"]]
+    if unit["kind"] == "days":
+        run_days(acc, unit["today"])
+        acc.merge_counts(harness.COUNTERS.take())
+        return acc.result()
     with frozen(today):
         if unit["kind"] == "random":
             for idx in range(unit["start"], unit["start"] + unit["n"]):
@@ -236,6 +290,10 @@ def run_unit(unit: dict) -> dict:
 def replay(case: dict) -> dict:
     acc = Acc()
     today = TODAYS[case["today"]]
+    if case.get("days"):
+        run_days(acc, case["today"])
+        acc.merge_counts(harness.COUNTERS.take())
+        return acc.result()
     with frozen(today):
         if "idx" in case:
             rng = rng_for(ID, case["seed"], case["idx"])
